@@ -50,6 +50,9 @@ type World struct {
 	// ClientWindow > 0: the gateway's writes to a client block once that many bytes are unread (a client that
 	// stopped reading)
 	ClientWindow int
+	// BackendWindow > 0: the gateway's writes to a remote desktop host block once that many bytes are unread (a
+	// host that stopped reading)
+	BackendWindow int
 }
 
 // NewWorld installs a fresh network.
@@ -62,6 +65,7 @@ func NewWorld() *World {
 		n := len(w.Backends)
 		gwEnd, beEnd := vnet.NewPipe("gw>backend"+strconv.Itoa(n), "backend"+strconv.Itoa(n), true)
 		gwEnd.PostRead = w.PostRead
+		gwEnd.Window = w.BackendWindow
 		b := &Backend{Addr: address, Conn: beEnd, GwSide: gwEnd}
 		w.Backends = append(w.Backends, b)
 		if w.OnBackend != nil {
